@@ -1,4 +1,106 @@
-From Coq Require Import String.
-From VP Require Import Base.Tactics Raft.Model Raft.Arms Raft.Gen_Commands Raft.ProofsSM Raft.Props.
-Check (C35_apply_all_app : forall l1 l2 s, apply_all (l1 ++ l2) s = apply_all l2 (apply_all l1 s)).
+From Coq Require Import String Sorting.Sorted.
+From VP Require Import Base.Tactics Raft.Model Raft.Arms Raft.Gen_Commands Raft.ProofsSM Raft.ProofsLog Raft.ProofsRecover Raft.Props.
+Open Scope Z_scope.
+Check (C35_batching_mem :
+  forall (batches : list (list entry)) (s : mstore),
+    ms_sm (fold_left (fun s b => ms_step s (OApply b)) batches s) = sm_apply (concat batches) (ms_sm s)).
+Print Assumptions C35_batching_mem.
+Check (C35_batching_rocks :
+  forall (batches : list (list entry)) (s : rstore),
+    r_sm (fold_left (fun s b => rs_step s (OApply b)) batches s) = sm_apply (concat batches) (r_sm s)).
+Print Assumptions C35_batching_rocks.
+Check (C35_state_is_fold :
+  forall es v, sv_state (sm_apply es v) = apply_all (cmds_of es) (sv_state v)).
+Print Assumptions C35_state_is_fold.
+Check (C35_apply_all_app :
+  forall l1 l2 s, apply_all (l1 ++ l2) s = apply_all l2 (apply_all l1 s)).
 Print Assumptions C35_apply_all_app.
+Check (C35_snapshot_mem :
+  forall (es1 es2 : list entry) (s0 : mstore),
+    ms_sm (ms_run [OInstall (leader_snapshot es1); OApply es2] s0) = sm_apply (es1 ++ es2) smv0).
+Print Assumptions C35_snapshot_mem.
+Check (C35_snapshot_rocks :
+  forall (es1 es2 : list entry) (s0 : rstore),
+    r_sm (rs_run [OInstall (leader_snapshot es1); OApply es2] s0) = sm_apply (es1 ++ es2) smv0).
+Print Assumptions C35_snapshot_rocks.
+Check (C35_stores_agree :
+  forall ops, agree (ms_run ops mstore0) (rs_run ops rstore0)).
+Print Assumptions C35_stores_agree.
+Check (C35_stores_agree_log_state :
+  forall ops, ms_log_state (ms_run ops mstore0) = rs_log_state (rs_run ops rstore0)).
+Print Assumptions C35_stores_agree_log_state.
+Check (C35_contract_sorted :
+  forall ops, log_sorted (ms_log (ms_run ops mstore0))).
+Print Assumptions C35_contract_sorted.
+Check (C35_contract_last_log_id :
+  forall ops x,
+    log_last (ms_log (ms_run ops mstore0)) = Some x ->
+    snd (ms_log_state (ms_run ops mstore0)) = Some x /\
+    exists i e, In (i, e) (ms_log (ms_run ops mstore0)) /\ x = e_id e /\
+                forall p, In p (ms_log (ms_run ops mstore0)) -> fst p <= i).
+Print Assumptions C35_contract_last_log_id.
+Check (C35_contract_last_log_id_empty :
+  forall s, ms_log s = [] -> ms_log_state s = (ms_purged s, ms_purged s)).
+Print Assumptions C35_contract_last_log_id_empty.
+Check (C35_contract_purge_everything :
+  forall s l,
+    (forall p, In p (ms_log s) -> fst p <= l_index l) -> ms_log_state (ms_step s (OPurge l)) = (Some l, Some l)).
+Print Assumptions C35_contract_purge_everything.
+Check (C35_contract_range :
+  forall lo hi l e,
+    In e (mem_range lo hi l) <-> exists i, In (i, e) l /\ in_range lo hi i = true).
+Print Assumptions C35_contract_range.
+Check (C35_contract_range_rocks :
+  forall lo hi l, log_sorted l -> log_nonneg l -> rk_range lo hi l = mem_range lo hi l).
+Print Assumptions C35_contract_range_rocks.
+Check (C35_contract_nonneg :
+  forall ops, Forall op_nonneg ops -> log_nonneg (ms_log (ms_run ops mstore0))).
+Print Assumptions C35_contract_nonneg.
+Check (C35_contract_append :
+  forall j i e l, log_get j (log_insert i e l) = if j =? i then Some e else log_get j l).
+Print Assumptions C35_contract_append.
+Check (C35_contract_purge :
+  forall j i l, log_get j (mem_purge_upto i l) = if j <=? i then None else log_get j l).
+Print Assumptions C35_contract_purge.
+Check (C35_contract_delete :
+  forall j i l, log_get j (mem_delete_since i l) = if i <=? j then None else log_get j l).
+Print Assumptions C35_contract_delete.
+Check (C35_contract_purge_rocks :
+  forall i l, log_sorted l -> rk_purge_upto i l = mem_purge_upto i l).
+Print Assumptions C35_contract_purge_rocks.
+Check (C35_contract_delete_rocks :
+  forall i l, log_sorted l -> rk_delete_since i l = mem_delete_since i l).
+Print Assumptions C35_contract_delete_rocks.
+Check (C35_contract_vote :
+  forall m o, ms_vote (ms_step m o) = match o with OVote v => Some v | _ => ms_vote m end).
+Print Assumptions C35_contract_vote.
+Check (C35_contract_snapshot :
+  forall m o,
+    ms_snap mstore0 = None /\
+    ms_snap (ms_step m o) = match o with OBuild => Some (sm_snapshot (ms_sm m)) | OInstall sn => Some sn | _ => ms_snap m end).
+Print Assumptions C35_contract_snapshot.
+Check (C35_no_index_panic :
+  forall es1 es2, sm_panics es2 (sm_apply es1 smv0) = false).
+Print Assumptions C35_no_index_panic.
+Check (C35_arms_match :
+  forall c, gen_arm c = model_arm c).
+Print Assumptions C35_arms_match.
+Check (C35_register_init_match :
+  gen_register_init = model_register_init).
+Print Assumptions C35_register_init_match.
+Check (C35_variants_match :
+  gen_variant_names = model_variant_names /\ gen_field_names = model_field_names).
+Print Assumptions C35_variants_match.
+Check (C35_arm_frame :
+  forall s c f, f <> a_field (model_arm c) -> same_on f s (apply_command s c)).
+Print Assumptions C35_arm_frame.
+Check (C35_arm_effect :
+  forall s c k,
+    cmd_key c = Some k ->
+    match a_action (model_arm c) with
+    | AInsert | AInsertIfStrId => has_key (a_field (model_arm c)) k (apply_command s c) = true
+    | ARemove => has_key (a_field (model_arm c)) k (apply_command s c) = false
+    | AUpdateIfPresent => has_key (a_field (model_arm c)) k (apply_command s c) = has_key (a_field (model_arm c)) k s
+    | AAssign => True
+    end).
+Print Assumptions C35_arm_effect.
